@@ -1136,8 +1136,12 @@ func Mutate(c *kit.Chooser, data []byte) ([]byte, string) {
 	}
 	if c.Chance("structured", 1, 2) {
 		if out, how, ok := MutateStructured(c, data); ok {
-			if how == "size-attack-chain" {
+			switch how {
+			case "size-attack-chain":
 				return out, how
+			case "string-emptied", "string-cut-by-one", "string-halved", "string-extended", "string-as-list",
+				"list-element-dropped", "list-element-repeated", "list-as-string":
+				return out, "wrong-shape-" + how // canonical encoding of a value of the wrong shape
 			}
 			return out, "noncanonical-" + how
 		}
